@@ -114,7 +114,7 @@ theorem buildCursorCol_hasMore_fwd {φ : Type} (q : ColQuery φ) (o : Order) (re
   split at h
   · cases h; rfl
   · split at h
-    · cases h
+    · cases h; rfl
     · cases h; rfl
 
 end Ledger.Query
@@ -135,6 +135,10 @@ theorem buildCursorCol_next_fwd {φ : Type} (q : ColQuery φ) (o : Order) (ret :
     · cases hq'
   · split at h
     · cases h
+      simp only [Option.mem_def] at hq'
+      split at hq'
+      · cases hq'; exact ⟨rfl, rfl⟩
+      · cases hq'
     · cases h
       simp only [Option.mem_def] at hq'
       split at hq'
